@@ -41,7 +41,6 @@ CHECK_DEADLOCK FALSE
 DESIGNS = {
     "as-is": ("FALSE", "TRUE"),  # the code as it is meant to work today (S30 is its documented behaviour)
     "Dev_S29_AnnotatedFieldsLoseConfigMeta": ("TRUE", "TRUE"),
-    "intended": ("FALSE", "FALSE"),
 }
 
 
@@ -156,9 +155,22 @@ def _patterns_for(tier: str, table: dict[str, dict[str, Any]]) -> dict[str, list
 
 def _jobs(tier: str, patterns: dict[str, Any], ncmd: int, seed: int) -> list[dict[str, Any]]:
     jobs = []
+    # quick: the presence combinations with valid values on every option of every command; the validity
+    # patterns once per DECLARATION (declaring class, option) -- on the first command, counted from a
+    # seed-dependent offset, that has it.  thorough: everything everywhere.
+    cmds = L.walk_commands()
+    full: dict[int, list[str]] = {i: [] for i in range(ncmd)}
+    seen: set[tuple[str, str]] = set()
+    for j in range(ncmd):
+        i = (j + seed) % ncmd
+        for name, d in L.declarations(cmds[i][1].CONFIG_TYPE).items():
+            if (d.owner, name) not in seen:
+                seen.add((d.owner, name))
+                full[i].append(name)
     for i in range(ncmd):
         if tier == "quick":
-            jobs.append({"index": i, "tier": tier, "patterns": patterns, "variants": [0], "n_meta": 2})
+            jobs.append({"index": i, "tier": tier, "patterns": patterns, "variants": [0], "n_meta": 2,
+                         "full": full[i]})
         else:
             jobs.append({"index": i, "tier": tier, "patterns": patterns, "variants": [0, 1, 2, 3], "n_meta": 12,
                          "short": True})
@@ -340,8 +352,10 @@ def run(tier: str, seed: int) -> Report:
     rep.extra["deviation_flags_in_force"] = ["Dev_S30_PositionalIgnoresDefaults (lenient reading: unspecified)"]
     rep.exhaustive = True
     rep.extra["exhaustive_over"] = (
-        "every instantiable TLC case pattern (presence of cli/env/file x validity) x every non-hidden option of "
-        "every command of load_commands(), through the per-command parser"
+        ("every instantiable TLC case pattern (presence of cli/env/file x validity) x every non-hidden option of "
+         "every command of load_commands(), through the per-command parser" if tier == "thorough" else
+         "every instantiable all-valid presence pattern x every non-hidden option of every command of "
+         "load_commands(); every validity pattern x every distinct option declaration (declaring class, name)")
         + ("; x 4 value variants; every all-valid pattern also through the whole-tree parser"
            if tier == "thorough" else "; whole-tree parser: seeded sample of 2 options per command"))
     ok_prec = [i for i, r in enumerate(records) if r["kind"] == "prec" and verdicts[r["id"]] == "ok"]
